@@ -152,6 +152,20 @@ def QUERIES(tier):
         '1+2-isolate@1.33': Query({'_1': G({'VCPU': None}),
                                    '_2': G({'VCPU': 1})}, policy='isolate',
                                   version='1.33'),
+        # groups without resources (1.36): only filters, placed by
+        # same_subtree; every filter of such a group counts, in_tree too
+        'A+B0-req-intree': Query({'_A': G({'VCPU': 1}),
+                                  '_B': G({}, req=[[T1]], tree=3)},
+                                 policy='none', subtrees=[['_A', '_B']]),
+        'A+B0-intree-only': Query({'_A': G({'VCPU': 1}),
+                                   '_B': G({}, tree=3)},
+                                  policy='none', subtrees=[['_A', '_B']]),
+        'A+B0-forb-only': Query({'_A': G({'VCPU': 1}),
+                                 '_B': G({}, forb=[T1])},
+                                policy='none', subtrees=[['_A', '_B']]),
+        'A+B0-req': Query({'_A': G({'VCPU': 1}),
+                           '_B': G({}, req=[[T1]])},
+                          policy='none', subtrees=[['_A', '_B']]),
         # several same_subtree constraints, each of which must hold
         'A+B+C-2subtrees': Query({'_A': G({'VCPU': 1}),
                                   '_B': G({'MEMORY_MB': 1}),
@@ -178,9 +192,12 @@ QUICK = [('flat', 'u-vcpu-disk', False), ('tree-t', 'u-req', False),
          ('two', 'u-vcpu-disk', True), ('tree-a', 'u-notmember', False),
          ('tree', 'u+1+2-nonadj', False), ('flat-t', 'u+D-rootreq', False),
          ('flat', 'u+D-root-notsharing', False), ('three', 'u-3rc', False),
-         ('flat-a', 'u-mem+D', False), ('numa', 'A+B+C-2subtrees', False)]
+         ('flat-a', 'u-mem+D', False), ('numa', 'A+B+C-2subtrees', False),
+         ('two-t', 'A+B0-req-intree', False)]
 
 THOROUGH_EXTRA = [
+    ('two-t', 'A+B0-intree-only', False), ('two-t', 'A+B0-forb-only', False),
+    ('two-t', 'A+B0-req', False), ('tree-t', 'A+B0-req', False),
     ('numa', 'A+B+C-2subtrees-rev', False), ('numa', '1+2-subtree', False),
     ('tree', '1+2-none@1.28', False), ('tree', '1+2-isolate@1.33', False),
     ('flat-a', 'D+u-mem', False), ('tree-a', 'u-mem+D', False),
